@@ -2066,6 +2066,15 @@ class QueryRewriter:
 
         where = select.args["where"].this
 
+        # Unqualified columns of a single-model query belong to that model, like unqualified
+        # names in the SELECT list
+        inferred = getattr(self, "inferred_table", None)
+        if inferred and inferred != "metrics" and inferred in self.graph.models:
+            where = where.copy()
+            for col in where.find_all(exp.Column):
+                if not col.table:
+                    col.set("table", exp.to_identifier(inferred))
+
         # Handle compound conditions (AND/OR)
         if isinstance(where, (exp.And, exp.Or)):
             return self._extract_compound_filters(where)
